@@ -2,6 +2,7 @@
   C18 — Conditional-compilation gates equal the conjunction of own and enclosing cfgs.
 -/
 import DDV.Gen.Passes
+import DDV.Gen.Lemmas.Refs
 
 namespace DDV.Props.C18
 open DDV.Gen
@@ -135,5 +136,24 @@ example : specList none
      .buffer ⟨none, "", "R2", .rw, 1⟩] := by
   simp [specList, specObj, applyLeafCfg, Object.setCfg, Cfg.combine]
   decide
+
+/-- **Refs**: the accessor lowered for a register / command ref carries the *ref's* cfg (which
+    `propagate_cfg` has already combined with the blocks enclosing the ref) — nothing of the
+    target's own cfg or of the blocks enclosing the target. -/
+theorem register_ref_cfg (n : Names) (cfg : GlobalConfig) (all : List Object) (rf : RefObject)
+    (ov : RegisterOverride) (r : Register) (t : Integer) (fuel : Nat)
+    (hov : rf.override = .register ov) (ht : searchObject ov.name all = some (.register r))
+    (hc : cfg.registerAddressType = some t) :
+    ∃ m, getMethod n cfg all "new" (fuel + 2) (.ref rf) = .ok (m, []) ∧ m.cfg = rf.cfg := by
+  obtain ⟨m, h, _, _, h3, _⟩ := register_ref_method n cfg all rf ov r t fuel hov ht hc
+  exact ⟨m, h, h3⟩
+
+theorem command_ref_cfg (n : Names) (cfg : GlobalConfig) (all : List Object) (rf : RefObject)
+    (ov : CommandOverride) (c : Command) (t : Integer) (fuel : Nat)
+    (hov : rf.override = .command ov) (ht : searchObject ov.name all = some (.command c))
+    (hc : cfg.commandAddressType = some t) :
+    ∃ m, getMethod n cfg all "new" (fuel + 2) (.ref rf) = .ok (m, []) ∧ m.cfg = rf.cfg := by
+  obtain ⟨m, h, _, _, h3, _⟩ := command_ref_method n cfg all rf ov c t fuel hov ht hc
+  exact ⟨m, h, h3⟩
 
 end DDV.Props.C18
